@@ -75,9 +75,11 @@ class ClassRef:
 class FuncRef:
     """A function of the repository: module + AST node + defining frame."""
 
-    def __init__(self, module, node, qualname, closure=None, self_obj=None):
+    def __init__(self, module, node, qualname, closure=None, self_obj=None,
+                 owner=None):
         self.module, self.node, self.qualname = module, node, qualname
         self.closure, self.self_obj = closure, self_obj
+        self.owner = owner          # ClassRef the method was found in
 
     def __repr__(self):
         return '<func %s.%s>' % (self.module.name, self.qualname)
@@ -174,6 +176,7 @@ class Interp:
         self.out = None         # ghost output sequence of a generator
         self.calls = []         # ghost call log of callback applications
         self.fn_stack = []
+        self.current_frame = None
         self.ghost_vars = {}    # extra names visible to contract expressions
         self.calls_ghost = None
         self.yield_hooks = []
@@ -249,7 +252,7 @@ class Interp:
             if k is None:
                 raise Unsupported('dict unpacking')
             kk = self.eval(k, fr)
-            if S.is_sym(kk):
+            if S.is_sym(kk) and not isinstance(kk, SVal):
                 raise Unsupported('symbolic key in dict literal')
             d[kk] = self.eval(v, fr)
         return d
@@ -523,6 +526,22 @@ class Interp:
             a = a.seq
         if isinstance(b, MList):
             b = b.seq
+        if op == 'Mult' and (isinstance(a, (SSeq, SStr, str)) or isinstance(
+                b, (SSeq, SStr, str))) and (ta is TInt or tb is TInt
+                                            or ta is TBool or tb is TBool):
+            q, k = (a, b) if not isinstance(a, (SInt, int, SBool)) else (b, a)
+            kt = TInt.unwrap(k)
+            rep = z3.If(kt < 0, z3.IntVal(0), kt)
+            if isinstance(q, SSeq):
+                j = z3.Int(S.fresh_name('k'))
+                ln = q.length
+                arr = z3.Lambda([j], q.at(S.py_mod(j, z3.If(ln == 0, 1,
+                                                           ln))))
+                return SSeq(z3.simplify(ln * rep), arr, q.elem, kind=q.kind)
+            # string repetition: characterised by its length only
+            r = z3.String(S.fresh_name('rep'))
+            self.path.assume(z3.Length(r) == z3.Length(TStr.unwrap(q)) * rep)
+            return SStr(r)
         if op == 'Add' and (isinstance(a, SSeq) or isinstance(b, SSeq)):
             if isinstance(a, (tuple, list)):
                 if not a:
@@ -716,6 +735,7 @@ class Interp:
                 kwargs.update(d)
             else:
                 kwargs[k.arg] = self.eval(k.value, fr)
+        self.current_frame = fr
         return self.call(fn, args, kwargs, node)
 
     def call(self, fn, args, kwargs, node=None):
@@ -742,6 +762,10 @@ class Interp:
             return self.call_func(fn, args, kwargs, node)
         if isinstance(fn, ClassRef):
             return self.world.construct(fn, args, kwargs, self, node)
+        if type(fn).__name__ == 'ObjVal':
+            m = self.world.attr_model(fn, '__call__', self)
+            if isinstance(m, FuncRef):
+                return self.call_func(m, args, kwargs, node)
         if isinstance(fn, SVal):
             # call of an opaque callable object: uninterpreted, logged
             from . import models
@@ -806,6 +830,8 @@ class Interp:
             raise Unsupported('inlining depth')
         fr = Frame(parent=fn.closure, module=fn.module)
         fr.world_state = self.world.module_state
+        fr.method_owner = fn.owner
+        fr.method_self = fn.self_obj
         kwargs = dict(kwargs)
         self.bind_params(fn, args, kwargs, fr)
         if isinstance(fn.node, ast.Lambda):
@@ -973,8 +999,15 @@ class Interp:
 
     def setitem(self, obj, idx, v, node=None):
         if isinstance(obj, dict):
-            if S.is_sym(idx):
+            if S.is_sym(idx) and not isinstance(idx, SVal):
                 raise Unsupported('symbolic key store into concrete dict')
+            # an opaque key is stored under its own identity: such a dict is
+            # only ever built and compared entry-wise, never searched
+            if isinstance(idx, SVal) and not self.spec:
+                from . import models
+                h = models.uf('py.hashable', S.Val, z3.BoolSort())(idx.t)
+                if not self.branch(h):
+                    self.raise_('TypeError', 'unhashable type', node=node)
             obj[idx] = v
             return
         if isinstance(obj, list) and not S.is_sym(idx):
